@@ -214,6 +214,7 @@ def bases():
         _BASES.update({
             'romfs': (cf.romfs_bytes(), trav_romfs, None, None),
             'romfs-ivfc': (__import__('romfsbuild').wrap_ivfc(cf.romfs_bytes(), 0x20, 12)[0], trav_romfs, None, None),
+            'romfs-deep': (romfs_deep_bytes(18), trav_romfs, None, None),
             'exefs': (cf.exefs_bytes(), trav_exefs, None, None),
             'ncch': (cf.ncch_bytes(False), trav_ncch, 0x400, None),
             'ncch-enc': (cf.ncch_bytes(True), trav_ncch, 0x400, None),
@@ -257,6 +258,28 @@ def romfs_layout(b):
             links.append((name, p + d))
         o += 0x20 + (int.from_bytes(b[p + 0x1C:p + 0x20], 'little') + 3) // 4 * 4
     return {'lv3': lv3, 'words': w, 'dirs': dirs, 'files': files, 'links': links}
+
+
+def romfs_deep_bytes(levels):
+    """a chain of `levels` levels, two sibling directories per level (the first one carries the next level)"""
+    import romfsbuild
+    node = []
+    for i in reversed(range(levels)):
+        node = [['d', 'a%d' % i, node, []], ['d', 'b%d' % i, [], []]]
+    return romfsbuild.build_lv3(['d', '', node, [['f.bin', b'x']]])[0]     # no file below the root: only the directory counter guards the chain
+
+
+def romfs_shared_children(b, lay):
+    """multi-field retargets without any cycle: every directory's next sibling gets the same first child (a DAG whose
+    number of PATHS doubles per level while the number of ENTRIES stays put) - all levels at once, and from level k on"""
+    base = lay['lv3'] + lay['words'][3]
+    pairs = []
+    for o in lay['dirs']:
+        sib = int.from_bytes(b[base + o + 4:base + o + 8], 'little')
+        child = int.from_bytes(b[base + o + 8:base + o + 12], 'little')
+        if sib != 0xFFFFFFFF and child != 0xFFFFFFFF and sib in lay['dirs']:
+            pairs.append(['set', base + sib + 8, 4, child])
+    return [pairs[k:] for k in range(0, max(1, len(pairs) - 3), 2)] + [[m] for m in pairs[:4]]
 
 
 def romfs_cycles(lay):
@@ -377,6 +400,10 @@ class C19(Check):
             for c in cyc:
                 for p in prof:
                     yield {'kind': kind, 'muts': c + p}
+        # RomFS: acyclic link sharing (siblings with one common child list, on every level of a deep chain)
+        for kind in ('romfs-deep', 'romfs'):
+            for muts in romfs_shared_children(bs[kind][0], romfs_layout(bs[kind][0])):
+                yield {'kind': kind, 'muts': muts}
         # NCCH: the content size together with every section offset / size field (a size or end that outruns the file must not buy
         # loop iterations), alone in a file and nested in a cartridge image whose partition size is inflated too
         big = (0xFFFFFFFF, 0x7FFFFFF0, 0x00800000)
@@ -451,7 +478,7 @@ class C19(Check):
         real = 'returned' if out[0] == 'ok' else ('raised' if out[0] == 'exc' else 'budget')
         # model side: the parsers whose cost is proved are run on the same bytes; the model is total, so it always answers
         model = real
-        if case['kind'] in ('romfs', 'romfs-ivfc') and out[0] != 'budget':
+        if case['kind'] in ('romfs', 'romfs-ivfc', 'romfs-deep') and out[0] != 'budget':
             # the constructor (header checks + metadata walk, whose cost is the proved part) against the model, error class included
             real = 'ok' if STAGE.get('romfs') == 'walk' else 'e:' + out[1]
             m = drv.ask(('romfs-parse', data, 0, 0))
